@@ -76,9 +76,11 @@ Proof.
 Qed.
 
 (* the rewritten path of a virtual-hosted request *)
-Lemma vhost_rewrite_vhost api bucket port path :
+Lemma vhost_rewrite_vhost fixed api bucket port path :
   bucket <> [] -> ~ In colon bucket -> ~ In colon api -> port_ok port ->
-  vhost_rewrite api ((bucket ++ dot :: api) ++ port) path = trim_suffix [slash] (slash :: bucket ++ path).
+  vhost_rewrite fixed api ((bucket ++ dot :: api) ++ port) path =
+  if fixed then (if bytes_eqb path [slash] || is_empty path then slash :: bucket else slash :: bucket ++ path)
+  else trim_suffix [slash] (slash :: bucket ++ path).
 Proof.
   intros Hne Hb Ha Hp. unfold vhost_rewrite.
   rewrite (strip_port_host _ port (vhost_host_colonfree bucket api Hb Ha) Hp).
@@ -86,40 +88,64 @@ Proof.
   destruct bucket; [contradiction | reflexivity].
 Qed.
 
-Lemma vhost_rewrite_path_style api port path :
-  ~ In colon api -> port_ok port -> vhost_rewrite api (api ++ port) path = path.
+Lemma vhost_rewrite_path_style fixed api port path :
+  ~ In colon api -> port_ok port -> vhost_rewrite fixed api (api ++ port) path = path.
 Proof.
   intros Ha Hp. unfold vhost_rewrite. rewrite (strip_port_host _ port Ha Hp), bytes_eqb_refl. reflexivity.
 Qed.
 
-Lemma route_api_vhost api web bucket port path method :
+Lemma route_api_vhost fixed api web bucket port path method :
   bucket <> [] -> ~ In colon bucket -> ~ In colon api -> port_ok port ->
-  route api web ((bucket ++ dot :: api) ++ port) path method =
-  mux false method (trim_suffix [slash] (slash :: bucket ++ path)).
+  route_gen fixed api web ((bucket ++ dot :: api) ++ port) path method =
+  mux false method
+    (if fixed then (if bytes_eqb path [slash] || is_empty path then slash :: bucket else slash :: bucket ++ path)
+     else trim_suffix [slash] (slash :: bucket ++ path)).
 Proof.
-  intros Hne Hb Ha Hp. unfold route.
+  intros Hne Hb Ha Hp. unfold route_gen.
   rewrite (strip_port_host _ port (vhost_host_colonfree bucket api Hb Ha) Hp).
   rewrite is_suffix_app, orb_true_r. rewrite vhost_rewrite_vhost by assumption. reflexivity.
 Qed.
 
-Lemma route_api_path_style api web port path method :
-  ~ In colon api -> port_ok port -> route api web (api ++ port) path method = mux false method path.
+Lemma route_api_path_style fixed api web port path method :
+  ~ In colon api -> port_ok port -> route_gen fixed api web (api ++ port) path method = mux false method path.
 Proof.
-  intros Ha Hp. unfold route. rewrite (strip_port_host _ port Ha Hp), bytes_eqb_refl. cbn [orb].
+  intros Ha Hp. unfold route_gen. rewrite (strip_port_host _ port Ha Hp), bytes_eqb_refl. cbn [orb].
   rewrite vhost_rewrite_path_style by assumption. reflexivity.
 Qed.
 
 (* ---- statements of Properties/C33.v ---- *)
-Definition vhost_eq_path_full_stmt : Prop :=
+Definition vhost_eq_path_full_stmt (fixed : bool) : Prop :=
   forall api web bucket port key method,
   bucket <> [] -> ~ In colon bucket -> ~ In colon api -> port_ok port -> key <> [] ->
-  route api web ((bucket ++ dot :: api) ++ port) (slash :: key) method =
-  route api web (api ++ port) (slash :: bucket ++ slash :: key) method.
+  route_gen fixed api web ((bucket ++ dot :: api) ++ port) (slash :: key) method =
+  route_gen fixed api web (api ++ port) (slash :: bucket ++ slash :: key) method.
 
-Lemma vhost_eq_path_partial_stmt : forall api web bucket port k c method,
+(* current code: every non-empty key *)
+Lemma vhost_eq_path_full_fixed_stmt : vhost_eq_path_full_stmt true.
+Proof.
+  intros api web bucket port key method Hne Hb Ha Hp Hk.
+  rewrite route_api_vhost, route_api_path_style by assumption.
+  destruct key as [|c k]; [contradiction|]. reflexivity.
+Qed.
+
+(* the bare root (path "/" or empty) of a virtual-hosted request addresses the bucket itself *)
+Lemma vhost_root_is_bucket_stmt : forall api web bucket port method,
+  bucket <> [] -> ~ In colon bucket -> ~ In colon api -> port_ok port ->
+  route_gen true api web ((bucket ++ dot :: api) ++ port) [slash] method =
+  route_gen true api web (api ++ port) (slash :: bucket) method /\
+  route_gen true api web ((bucket ++ dot :: api) ++ port) [] method =
+  route_gen true api web (api ++ port) (slash :: bucket) method.
+Proof.
+  intros api web bucket port method Hne Hb Ha Hp.
+  rewrite !route_api_vhost, route_api_path_style by assumption.
+  split; reflexivity.
+Qed.
+
+(* ---- historical: the pre-fix rewrite (TrimSuffix of the whole rewritten path) ---- *)
+Lemma prefix_vhost_eq_path_partial_stmt : forall api web bucket port k c method,
   bucket <> [] -> ~ In colon bucket -> ~ In colon api -> port_ok port -> c <> slash ->
-  route api web ((bucket ++ dot :: api) ++ port) (slash :: k ++ [c]) method =
-  route api web (api ++ port) (slash :: bucket ++ slash :: k ++ [c]) method.
+  route_gen false api web ((bucket ++ dot :: api) ++ port) (slash :: k ++ [c]) method =
+  route_gen false api web (api ++ port) (slash :: bucket ++ slash :: k ++ [c]) method.
 Proof.
   intros api web bucket port k c method Hne Hb Ha Hp Hc.
   rewrite route_api_vhost, route_api_path_style by assumption.
@@ -128,22 +154,10 @@ Proof.
   rewrite trim_slash_keeps by exact Hc. reflexivity.
 Qed.
 
-Lemma vhost_root_is_bucket_stmt : forall api web bucket port method,
+Lemma prefix_vhost_trailing_slash_stmt : forall api web bucket port k method,
   bucket <> [] -> ~ In colon bucket -> ~ In colon api -> port_ok port ->
-  route api web ((bucket ++ dot :: api) ++ port) [slash] method =
-  route api web (api ++ port) (slash :: bucket) method.
-Proof.
-  intros api web bucket port method Hne Hb Ha Hp.
-  rewrite route_api_vhost, route_api_path_style by assumption.
-  replace (slash :: bucket ++ [slash]) with ((slash :: bucket) ++ [slash]) by reflexivity.
-  rewrite trim_suffix_app. reflexivity.
-Qed.
-
-(* what the code does with a key that ends in '/': exactly one trailing slash is cut off before routing *)
-Lemma vhost_trailing_slash_stmt : forall api web bucket port k method,
-  bucket <> [] -> ~ In colon bucket -> ~ In colon api -> port_ok port ->
-  route api web ((bucket ++ dot :: api) ++ port) (slash :: k ++ [slash]) method =
-  route api web (api ++ port) (slash :: bucket ++ slash :: k) method.
+  route_gen false api web ((bucket ++ dot :: api) ++ port) (slash :: k ++ [slash]) method =
+  route_gen false api web (api ++ port) (slash :: bucket ++ slash :: k) method.
 Proof.
   intros api web bucket port k method Hne Hb Ha Hp.
   rewrite route_api_vhost, route_api_path_style by assumption.
@@ -155,18 +169,22 @@ Qed.
 Definition wit_api := B"s3.localhost".
 Definition wit_web := B"s3-website.localhost".
 
-Lemma witness_values :
-  route wit_api wit_web B"bucket.s3.localhost" B"/folder/" B"PUT" = Routed (ApiObject B"bucket" B"folder") /\
+Lemma prefix_witness_values :
+  route_gen false wit_api wit_web B"bucket.s3.localhost" B"/folder/" B"PUT" = Routed (ApiObject B"bucket" B"folder") /\
+  route_gen false wit_api wit_web B"s3.localhost" B"/bucket/folder/" B"PUT" = Routed (ApiObject B"bucket" B"folder/").
+Proof. vm_compute. split; reflexivity. Qed.
+
+Lemma witness_values_now :
+  route wit_api wit_web B"bucket.s3.localhost" B"/folder/" B"PUT" = Routed (ApiObject B"bucket" B"folder/") /\
   route wit_api wit_web B"s3.localhost" B"/bucket/folder/" B"PUT" = Routed (ApiObject B"bucket" B"folder/").
 Proof. vm_compute. split; reflexivity. Qed.
 
-Lemma vhost_eq_path_refuted_stmt : ~ vhost_eq_path_full_stmt.
+Lemma prefix_vhost_eq_path_refuted_stmt : ~ vhost_eq_path_full_stmt false.
 Proof.
   intros H.
   specialize (H wit_api wit_web B"bucket" [] B"folder/" B"PUT").
-  destruct witness_values as [W1 W2].
-  assert (route wit_api wit_web ((B"bucket" ++ dot :: wit_api) ++ []) (slash :: B"folder/") B"PUT" =
-          route wit_api wit_web (wit_api ++ []) (slash :: B"bucket" ++ slash :: B"folder/") B"PUT") as E.
+  assert (route_gen false wit_api wit_web ((B"bucket" ++ dot :: wit_api) ++ []) (slash :: B"folder/") B"PUT" =
+          route_gen false wit_api wit_web (wit_api ++ []) (slash :: B"bucket" ++ slash :: B"folder/") B"PUT") as E.
   { apply H.
     - discriminate.
     - vm_compute. intuition discriminate.
@@ -211,13 +229,13 @@ Proof.
     intros H; inversion H; subst. split; [reflexivity | apply mem_bytes_In; exact E].
 Qed.
 
-Lemma website_readonly_stmt : forall api web host path method t,
-  route api web host path method = Routed t ->
+Lemma website_readonly_stmt : forall fixed api web host path method t,
+  route_gen fixed api web host path method = Routed t ->
   let on_api := bytes_eqb (strip_port host) api || is_suffix ("."%byte :: api) (strip_port host) in
   (on_api = false -> is_web_target t = true /\ (method = B"GET" \/ method = B"HEAD")) /\
   (on_api = true -> is_web_target t = false /\ In method api_methods).
 Proof.
-  intros api web host path method t H on_api. unfold route in H. fold on_api in H.
+  intros fixed api web host path method t H on_api. unfold route_gen in H. fold on_api in H.
   destruct on_api eqn:E.
   - split; [discriminate|]. intros _. apply (mux_api_targets _ _ _ H).
   - split; [|discriminate]. intros _.
@@ -225,12 +243,12 @@ Proof.
       apply (mux_web_readonly _ _ _ H).
 Qed.
 
-Lemma website_never_mutates_stmt : forall api web host path method,
+Lemma website_never_mutates_stmt : forall fixed api web host path method,
   bytes_eqb (strip_port host) api || is_suffix ("."%byte :: api) (strip_port host) = false ->
   method <> B"GET" -> method <> B"HEAD" ->
-  forall t, route api web host path method <> Routed t.
+  forall t, route_gen fixed api web host path method <> Routed t.
 Proof.
-  intros api web host path method Hweb Hg Hh t H.
-  destruct (website_readonly_stmt api web host path method t H) as [Hw _].
+  intros fixed api web host path method Hweb Hg Hh t H.
+  destruct (website_readonly_stmt fixed api web host path method t H) as [Hw _].
   destruct (Hw Hweb) as [_ [E|E]]; contradiction.
 Qed.
